@@ -83,8 +83,37 @@ var harnessFuncRe = regexp.MustCompile(`(?m)^func (H_\w+)\(\)`)
 
 // buildReplayBinary compiles the native test binary of a harness package (once per check run)
 func buildReplayBinary(cfg *RunConfig, pkg string, workdir string) (string, error) {
+	excluded := map[string]bool{}
+	for attempt := 0; ; attempt++ {
+		bin, out, err := buildReplayBinaryOnce(cfg, pkg, workdir, excluded)
+		if err == nil {
+			return bin, nil
+		}
+		// drop harness files that no longer compile against the tree (see loadProgram) and retry
+		progress := false
+		for _, m := range regexp.MustCompile(`(zz_verif_[\w]+\.go):\d+`).FindAllStringSubmatch(out, -1) {
+			b := m[1]
+			if strings.Contains(b, "_util") || strings.Contains(b, "_refpeer") || strings.Contains(b, "_reflzh") || b == "zz_verif_sym.go" || b == "zz_verif_replay_test.go" || excluded[b] {
+				continue
+			}
+			excluded[b] = true
+			progress = true
+		}
+		if !progress || attempt > 6 {
+			return "", err
+		}
+	}
+}
+
+func buildReplayBinaryOnce(cfg *RunConfig, pkg string, workdir string, excluded map[string]bool) (string, string, error) {
 	hdir := filepath.Join(cfg.VerifDir, "harness", pkg)
-	files, _ := filepath.Glob(filepath.Join(hdir, "*.go"))
+	all, _ := filepath.Glob(filepath.Join(hdir, "*.go"))
+	var files []string
+	for _, f := range all {
+		if !excluded[filepath.Base(f)] {
+			files = append(files, f)
+		}
+	}
 	replace := map[string]string{}
 	pkgName := ""
 	var names []string
@@ -104,7 +133,7 @@ func buildReplayBinary(cfg *RunConfig, pkg string, workdir string) (string, erro
 	sort.Strings(names)
 	symSrc, err := os.ReadFile(filepath.Join(cfg.VerifDir, "harness", "zz_verif_sym.go.tmpl"))
 	if err != nil {
-		return "", err
+		return "", "", err
 	}
 	symFile := filepath.Join(workdir, "zz_verif_sym.go")
 	os.WriteFile(symFile, []byte(strings.Replace(string(symSrc), "package PKG", "package "+pkgName, 1)), 0644)
@@ -182,9 +211,9 @@ func buildReplayBinary(cfg *RunConfig, pkg string, workdir string) (string, erro
 	cmd.Env = append(os.Environ(), "GOTOOLCHAIN=go1.24.0", "GOFLAGS=-mod=mod", "GOPROXY=off")
 	out, err := cmd.CombinedOutput()
 	if err != nil {
-		return "", fmt.Errorf("building replay binary for %s: %v\n%s", pkg, err, out)
+		return "", string(out), fmt.Errorf("building replay binary for %s: %v\n%s", pkg, err, out)
 	}
-	return bin, nil
+	return bin, "", nil
 }
 
 func runReplay(bin string, cfg *RunConfig, h *HarnessSpec, params map[string]int, vec []VecEntry, workdir string) replayOutcome {
@@ -571,6 +600,9 @@ func cmdCheck(args []string) {
 	var pretty bytes.Buffer
 	pretty.Write(eb)
 	os.WriteFile(filepath.Join(verifDir, "evidence", prop+".json"), pretty.Bytes(), 0644)
+	if nViol > 0 {
+		exit = 1 // a reproduced violation takes precedence over inconclusive items
+	}
 	if exit == 0 {
 		fmt.Printf("OK property=%s tier=%s paths=%d replays=%d wall=%.1fs\n", prop, tier, totalPaths, totalReplayed, time.Since(t0).Seconds())
 	}
